@@ -48,6 +48,14 @@ const (
 
 var c24StateName = []string{"Uc", "Us", "Un", "Fc", "Ub", "Fn"}
 
+func c24Names(sts []int) []string {
+	out := make([]string, len(sts))
+	for i, s := range sts {
+		out[i] = c24StateName[s]
+	}
+	return out
+}
+
 func c24Final(st int) bool { return st == c24Fc || st == c24Fn }
 func c24Body(st int) bool  { return st == c24Uc || st == c24Us || st == c24Ub }
 func c24InCache(st int) bool {
@@ -88,8 +96,10 @@ func (e c24Event) String() string {
 }
 
 type c24Tier struct {
-	states  int      // transaction state alphabet = first n of c24StateName
-	maxAggs int      // aggregators per configuration
+	states  []int // transaction state alphabet; states[0] is c24Uc, the default of unreferenced transactions
+	name    string
+	minAggs int      // aggregators per configuration: at least
+	maxAggs int      // ... and at most
 	ages    []uint64 // now - timestamp, in units: see c24AgeNs
 	ageName []string
 	comps   [][2]int // (commitments, responses) relative: filled with the real threshold
@@ -348,6 +358,7 @@ func (in *c24Inst) enabled(cfg []c24Agg) []c24Event {
 type c24Finding struct{ key, desc string }
 
 type c24Report struct {
+	tier   *c24Tier
 	rank   [6]int
 	desc   string
 	replay any
@@ -669,10 +680,10 @@ func c24Configs(t *c24Tier) [][]c24Agg {
 		}
 		return true
 	}
-	out := [][]c24Agg{{}}
+	var out [][]c24Agg
 	var rec func(start int, cur []c24Agg)
 	rec = func(start int, cur []c24Agg) {
-		if len(cur) > 0 {
+		if len(cur) >= t.minAggs {
 			out = append(out, append([]c24Agg(nil), cur...))
 		}
 		if len(cur) == t.maxAggs {
@@ -692,37 +703,137 @@ func c24Configs(t *c24Tier) [][]c24Agg {
 	return out
 }
 
+func c24Tiers(c *verifmc.Check) []*c24Tier {
+	if v := os.Getenv("C24_DEBUG_TIER"); v != "" {
+		t := &c24Tier{name: "debug", ages: []uint64{22, 11, 10, 1}, ageName: []string{"2gap+2", "gap+1", "gap", "1ns"}, comps: [][2]int{{-1, -1}, {0, -1}, {0, 0}, {2, 2}}}
+		var na, nc, ns int
+		fmt.Sscanf(v, "%d,%d,%d,%d,%d,%d", &ns, &t.minAggs, &t.maxAggs, &na, &nc, &t.depth2)
+		t.states = []int{c24Uc, c24Un, c24Fc, c24Us, c24Ub, c24Fn}[:ns]
+		t.ages, t.ageName, t.comps = t.ages[4-na:], t.ageName[4-na:], t.comps[:nc]
+		return []*c24Tier{t}
+	}
+	ages3, names3 := []uint64{11, 10, 1}, []string{"gap+1", "gap", "1ns"}
+	ages4, names4 := []uint64{22, 11, 10, 1}, []string{"2gap+2", "gap+1", "gap", "1ns"}
+	comps3 := [][2]int{{-1, -1}, {0, -1}, {0, 0}}
+	comps4 := [][2]int{{-1, -1}, {0, -1}, {0, 0}, {2, 2}}
+	if !c.Thorough() {
+		return []*c24Tier{{name: "upto2", states: []int{c24Uc, c24Us, c24Un, c24Fc}, maxAggs: 2, ages: ages3, ageName: names3, comps: comps3, depth2: -1}}
+	}
+	small := []int{c24Uc, c24Un, c24Fc}
+	return []*c24Tier{
+		{name: "upto2-wide", states: []int{c24Uc, c24Us, c24Un, c24Fc, c24Ub, c24Fn}, maxAggs: 2, ages: ages3, ageName: names3, comps: comps3, depth2: -1},
+		{name: "upto2-very-old", states: small, maxAggs: 2, ages: ages4, ageName: names4, comps: comps4, depth2: -1},
+		{name: "three", states: small, minAggs: 3, maxAggs: 3, ages: ages3, ageName: names3, comps: comps3, depth2: -1},
+		{name: "two-then-second-event", states: small, minAggs: 2, maxAggs: 2, ages: ages3, ageName: names3, comps: comps3, depth2: 2},
+	}
+}
+
+type c24Stats struct {
+	sharedLive, orderSensitive, completeKept, agedKept atomic.Int64
+	resetExcluded, overflowQueued, dupGuarded          atomic.Int64
+	sampled, single, planned                           atomic.Int64
+
+	fmu      sync.Mutex
+	found    map[string]*c24Report
+	perClass map[string]int64
+}
+
 func TestMC_C24(t *testing.T) {
 	c := verifmc.Start(t, "C24", "exploration")
 	defer c.Finish()
-	tier := verifmc.Pick(c,
-		&c24Tier{states: 4, maxAggs: 2, ages: []uint64{11, 10, 1}, ageName: []string{"gap+1", "gap", "1ns"}, comps: [][2]int{{-1, -1}, {0, -1}, {0, 0}}, depth2: -1},
-		&c24Tier{states: 6, maxAggs: 3, ages: []uint64{22, 11, 10, 1}, ageName: []string{"2gap+2", "gap+1", "gap", "1ns"}, comps: [][2]int{{-1, -1}, {0, -1}, {0, 0}, {2, 2}}, depth2: 2})
-	c.SetRule("real 7-node fixture node; its own Chain is given every configuration of 0..N local proposals (CosiAggregators + CosiVerifiers as cosiSendAnnouncement installs them) over 4 real deposit transactions: every non-empty transaction set per proposal, every overlap the announcement guard admits (shared transaction only with timestamps >= SnapshotRoundGap apart, the later proposal owning the verifier entry), every age and every commitments/responses class per proposal; x every ledger/cache state of every referenced transaction (unreferenced ones are unfinalized with a cache body, the most observable state); x every enabled event: expireCosiAggregators(now), retryCosiSnapshot(P) per proposal, resetCosiStateForNewRound(owned) for every owned subset of one proposal, AppendSelfEmpty on a full CachePool, cosiSendAnnouncement deferred by the round cutoff and by the duplicate guard (thorough: every sequence of two events). After each event the raw queue keys are read and the queue is drained with CacheRetrieveTransactions(255). A case is distinct by (transaction states, configuration, event sequence)")
-	c.Assume("CoSi maps are built in-package the way cosiSendAnnouncement builds them (no network round trip); the deferred-announcement events run against a copy of the real cache round that holds one earlier snapshot; transactions handed over by the queue loop (overflow / deferred proposals) are not in flight elsewhere except where the duplicate guard is the subject; one node instance serves all cases of one transaction-state vector, its cache database is compared with the baseline image after every case")
-	nStates := tier.states
+	c.SetRule("real 7-node fixture node; its own Chain is given every configuration of 0..N local proposals (CosiAggregators + CosiVerifiers as cosiSendAnnouncement installs them) over 4 real deposit transactions: every non-empty transaction set per proposal, every overlap the announcement guard admits (shared transaction only with timestamps >= SnapshotRoundGap apart, the later proposal owning the verifier entry), every age and every commitments/responses class per proposal (classes only under expiry, one age per non-sharing proposal under events that do not read timestamps); x every ledger/cache state of every referenced transaction (unreferenced ones are unfinalized with a cache body, the most observable state); x every enabled event: expireCosiAggregators(now), retryCosiSnapshot(P) per proposal, resetCosiStateForNewRound(owned) for every owned subset of one proposal, AppendSelfEmpty on a full CachePool, cosiSendAnnouncement deferred by the round cutoff and by the duplicate guard (thorough adds every sequence of two events, a wider alphabet and three proposals). After each event the raw queue keys are read and the queue is drained with CacheRetrieveTransactions(255). A case is distinct by (part, transaction states, configuration, event sequence)")
+	c.Assume("CoSi maps are built in-package the way cosiSendAnnouncement builds them (no network round trip); the deferred-announcement events run against a copy of the real cache round that holds one earlier snapshot; transactions handed over by the queue loop (overflow / deferred proposals) are not in flight elsewhere except where the duplicate guard is the subject; one node instance serves all cases of one transaction-state vector: its cache database is compared with the baseline image after every case and replaced by an empty one every 256 cases")
+	st := &c24Stats{found: map[string]*c24Report{}, perClass: map[string]int64{}}
+	complete := true
+	var parts []string
+	for _, tier := range c24Tiers(c) {
+		seqs := "single events"
+		if tier.depth2 >= 0 {
+			seqs = "single events and every second event after a partial retirement"
+		}
+		parts = append(parts, fmt.Sprintf("%s: tx states %v, %d..%d proposals, ages %v, %d completion classes, %s", tier.name, c24Names(tier.states), tier.minAggs, tier.maxAggs, tier.ageName, len(tier.comps), seqs))
+		if !c24RunPart(c, tier, st) {
+			complete = false
+			break
+		}
+	}
+	c.Set("parts", parts)
+
+	// report the smallest case of every violated class, after re-executing it
+	// five times on fresh nodes (determinism gate)
+	keys := make([]string, 0, len(st.found))
+	for k := range st.found {
+		keys = append(keys, k)
+	}
+	sort.Strings(keys)
+	for _, k := range keys {
+		r := st.found[k]
+		c.ViolationChecked(k, r.desc, r.replay, func() bool {
+			in, err := c24NewInst(r.tier, r.st)
+			if err != nil {
+				return false
+			}
+			defer in.close()
+			in.install(r.cfg)
+			for _, pe := range r.seq[:len(r.seq)-1] {
+				in.apply(r.cfg, pe, false)
+			}
+			fs, _, _ := in.apply(r.cfg, r.seq[len(r.seq)-1], true)
+			for _, f := range fs {
+				if f.key == k {
+					return true
+				}
+			}
+			return false
+		})
+	}
+	c.Set("failing_cases_per_class", st.perClass)
+	c.Set("single_event_cases_planned", st.planned.Load())
+	c.Set("single_event_cases_executed", st.single.Load())
+	c.Set("retired_while_a_later_proposal_owns_a_shared_transaction", st.sharedLive.Load())
+	c.Set("finalized_listed_before_requeued", st.orderSensitive.Load())
+	c.Set("complete_aged_proposals_kept_by_expiry", st.completeKept.Load())
+	c.Set("incomplete_aged_proposals_kept_by_expiry", st.agedKept.Load())
+	c.Set("resets_with_owned_excluded_and_others_requeued", st.resetExcluded.Load())
+	c.Set("overflow_requeues", st.overflowQueued.Load())
+	c.Set("duplicate_guard_defers_with_requeue", st.dupGuarded.Load())
+	if complete && os.Getenv("C24_DEBUG_VECTORS") == "" {
+		c.Require(st.single.Load() == st.planned.Load(), "planned %d single-event cases, executed %d", st.planned.Load(), st.single.Load())
+		c.Require(st.sharedLive.Load() > 0, "no proposal was retired while a later proposal owned one of its transactions")
+		c.Require(st.orderSensitive.Load() > 0, "no retired proposal listed a finalized transaction before a re-queued one")
+		c.Require(st.completeKept.Load() > 0, "expiry never met a complete aged proposal")
+		c.Require(st.resetExcluded.Load() > 0 && st.overflowQueued.Load() > 0 && st.dupGuarded.Load() > 0, "reset / overflow / duplicate-guard paths were not exercised: %d %d %d", st.resetExcluded.Load(), st.overflowQueued.Load(), st.dupGuarded.Load())
+		c.Require(c.OutcomeCount("expire:retired=1:queued=2") > 0 && c.OutcomeCount("expire:retired=0:queued=0") > 0, "expiry outcomes are vacuous")
+	}
+}
+
+// c24RunPart enumerates one part (alphabet) completely; false when the wall
+// clock cap stopped it.
+func c24RunPart(c *verifmc.Check, tier *c24Tier, stats *c24Stats) bool {
 	radices := make([]int, c24NTx)
 	for i := range radices {
-		radices[i] = nStates
+		radices[i] = len(tier.states)
 	}
 	nVec := int(verifmc.ProductSize(radices))
 	if v := os.Getenv("C24_DEBUG_VECTORS"); v != "" {
 		fmt.Sscan(v, &nVec)
 	}
-
 	var configs [][]c24Agg
-	var single atomic.Int64
-	var plannedCases int64
-	// the completion classes are relative to the real threshold; check it once
 	{
 		in, err := c24NewInst(tier, [c24NTx]int{})
 		c.Require(err == nil, "fixture: %v", err)
 		if err != nil {
-			return
+			return false
 		}
 		n := len(in.m.Node.NodesListWithoutState(in.now, true))
-		// planned number of single-event cases: every event of every configuration
-		// times every state assignment of the transactions it references
+		c.Require(in.base >= 2 && in.base+2 <= n, "threshold %d of %d nodes leaves no room for the completion classes", in.base, n)
+		if in.base < 2 || in.base+2 > n {
+			in.close()
+			return false
+		}
+		c.Set("consensus_threshold", in.base)
+		// planned number of single-event cases: every enumerated event of every
+		// configuration times every state assignment of the transactions it references
 		configs = c24Configs(tier)
 		var planned int64
 		perKind := map[string]int64{}
@@ -736,42 +847,28 @@ func TestMC_C24(t *testing.T) {
 				if !c24Runs(tier, cfg, e) {
 					continue
 				}
-				ref := union
-				if e.kind != "expire" && e.kind != "retry" && e.kind != "reset" {
-					ref |= e.mask
-				}
 				k := int64(1)
-				for i := 0; i < c24Pop(ref); i++ {
-					k *= int64(tier.states)
+				for i := 0; i < c24Pop(in.refOf(cfg, []c24Event{e})); i++ {
+					k *= int64(len(tier.states))
 				}
 				planned += k
 				perKind[e.kind] += k
 			}
 		}
-		c.Set("single_event_cases_planned", planned)
-		c.Set("single_event_cases_planned_per_event", perKind)
-		plannedCases = planned
 		in.close()
-		c.Require(in.base >= 2 && in.base+2 <= n, "threshold %d of %d nodes leaves no room for the completion classes", in.base, n)
-		if in.base < 2 || in.base+2 > n {
-			return
-		}
-		c.Set("consensus_threshold", in.base)
+		stats.planned.Add(planned)
+		c.Set("planned_per_event:"+tier.name, perKind)
+		c.Set("configurations:"+tier.name, len(configs))
+		c.Set("tx_state_vectors:"+tier.name, nVec)
 	}
-	c.Set("configurations", len(configs))
-	c.Set("tx_state_vectors", nVec)
 
-	var sharedLive, orderSensitive, completeKept, agedKept, resetExcluded, overflowQueued, dupGuarded atomic.Int64
-	var sampled atomic.Int64
-	var fmu sync.Mutex
-	found := map[string]*c24Report{}
-	complete := c.ParallelN(nVec, "transaction state vectors", func(w, vi int) {
+	return c.ParallelN(nVec, "transaction state vectors of part "+tier.name, func(w, vi int) {
 		d := verifmc.Digits(radices, int64(vi), nil)
 		var st [c24NTx]int
 		var nonDefault uint8
 		vec := ""
 		for i := range st {
-			st[i] = d[i]
+			st[i] = tier.states[d[i]]
 			if st[i] != c24Uc {
 				nonDefault |= 1 << uint(i)
 			}
@@ -808,25 +905,26 @@ func TestMC_C24(t *testing.T) {
 			fs, outcome, q := in.apply(cfg, e, true)
 			seq := append(append([]c24Event(nil), prefix...), e)
 			if len(prefix) == 0 {
-				single.Add(1)
+				stats.single.Add(1)
 			}
 			c.Eval(1)
 			c.AddTraces(1)
-			key := vec + "|" + cs + "|" + fmt.Sprint(seq)
-			c.Distinct(key)
+			c.Distinct(tier.name + "|" + vec + "|" + cs + "|" + fmt.Sprint(seq))
 			c.Outcome(outcome)
 			for _, f := range fs {
 				// keep the smallest failing case per class (deterministic report)
 				rank := [6]int{len(cfg), c24Pop(in.refOf(cfg, seq)), c24Pop(nonDefault), len(seq), vi, ci*4096 + evIndex}
-				fmu.Lock()
-				if old, ok := found[f.key]; !ok || c24Less(rank, old.rank) {
-					found[f.key] = &c24Report{rank: rank, desc: f.desc + " — " + cs + " tx=" + vec + " events=" + fmt.Sprint(seq), replay: replay(cfg, seq, q),
-						st: st, cfg: append([]c24Agg(nil), cfg...), seq: seq}
+				stats.fmu.Lock()
+				stats.perClass[f.key]++
+				if old, ok := stats.found[f.key]; !ok || c24Less(rank, old.rank) {
+					stats.found[f.key] = &c24Report{rank: rank, desc: f.desc + " — " + cs + " tx=" + vec + " events=" + fmt.Sprint(seq), replay: replay(cfg, seq, q),
+						tier: tier, st: st, cfg: append([]c24Agg(nil), cfg...), seq: seq}
 				}
-				fmu.Unlock()
+				stats.fmu.Unlock()
 			}
 			// coverage facts used by the vacuity guards
 			aliveAfter, _ := in.liveMask()
+			ownedAfter, _, _ := in.ownedNow()
 			for k, a := range cfg {
 				if !aliveBefore[k] {
 					continue
@@ -835,15 +933,14 @@ func TestMC_C24(t *testing.T) {
 				aged := c24AgeNs(in.tier.ages[a.age]) >= config.SnapshotRoundGap
 				if e.kind == "expire" && aged && aliveAfter[k] {
 					if nc >= in.base && nr == nc {
-						completeKept.Add(1)
+						stats.completeKept.Add(1)
 					} else {
-						agedKept.Add(1)
+						stats.agedKept.Add(1)
 					}
 				}
 				if !aliveAfter[k] {
-					ownedAfter, _, _ := in.ownedNow()
 					if a.set&ownedAfter != 0 {
-						sharedLive.Add(1)
+						stats.sharedLive.Add(1)
 					}
 					// a finalized transaction listed before one that must be re-queued
 					seenFinal := false
@@ -854,21 +951,21 @@ func TestMC_C24(t *testing.T) {
 						if c24Final(st[i]) {
 							seenFinal = true
 						} else if seenFinal && q&(1<<uint(i)) != 0 {
-							orderSensitive.Add(1)
+							stats.orderSensitive.Add(1)
 						}
 					}
 				}
 			}
 			if e.kind == "reset" && e.mask != 0 && q != 0 {
-				resetExcluded.Add(1)
+				stats.resetExcluded.Add(1)
 			}
 			if e.kind == "overflow" && q != 0 {
-				overflowQueued.Add(1)
+				stats.overflowQueued.Add(1)
 			}
 			if e.kind == "defer-dup" && q != 0 && ownedBefore&e.mask != 0 {
-				dupGuarded.Add(1)
+				stats.dupGuarded.Add(1)
 			}
-			if len(fs) == 0 && len(cfg) >= 2 && q != 0 && sampled.Add(1) <= 6 {
+			if len(fs) == 0 && len(cfg) >= 2 && q != 0 && c24Pop(nonDefault) >= 2 && stats.sampled.Add(1) <= 6 {
 				c.Sample(replay(cfg, seq, q))
 			}
 			if err := in.restore(); err != nil {
@@ -900,10 +997,7 @@ func TestMC_C24(t *testing.T) {
 				if !c24Runs(tier, cfg, e) {
 					continue
 				}
-				ref := union
-				if e.kind != "expire" && e.kind != "retry" && e.kind != "reset" {
-					ref |= e.mask
-				}
+				ref := in.refOf(cfg, []c24Event{e})
 				// an unreferenced transaction is only enumerated in its default state
 				if nonDefault&^ref == 0 {
 					runCase(cfg, cs, nil, e)
@@ -911,9 +1005,21 @@ func TestMC_C24(t *testing.T) {
 				if tier.depth2 < 0 || len(cfg) > tier.depth2 || len(cfg) == 0 {
 					continue
 				}
-				// second events from the state the first one leaves behind
+				// second events from the state the first one leaves behind. Only a
+				// first event that retires some proposals and keeps others leads to a
+				// chain state outside the initial product: the deferred-proposal
+				// events do not touch the CoSi maps, a reset empties them.
+				if e.kind != "expire" && e.kind != "retry" {
+					continue
+				}
 				in.install(cfg)
 				in.apply(cfg, e, false)
+				if _, alive := in.liveMask(); alive == 0 || alive == len(cfg) {
+					if err := in.restore(); err != nil {
+						c.Require(false, "instance reuse is unsound: %v", err)
+					}
+					continue
+				}
 				evs2 := in.enabled(cfg)
 				if err := in.restore(); err != nil {
 					c.Require(false, "instance reuse is unsound: %v", err)
@@ -922,11 +1028,7 @@ func TestMC_C24(t *testing.T) {
 					if !c24Runs(tier, cfg, e2) {
 						continue
 					}
-					ref2 := ref
-					if e2.kind != "expire" && e2.kind != "retry" && e2.kind != "reset" {
-						ref2 |= e2.mask
-					}
-					if nonDefault&^ref2 != 0 {
+					if nonDefault&^in.refOf(cfg, []c24Event{e, e2}) != 0 {
 						continue
 					}
 					runCase(cfg, cs, []c24Event{e}, e2)
@@ -934,47 +1036,4 @@ func TestMC_C24(t *testing.T) {
 			}
 		}
 	})
-	// report the smallest case of every violated class, after re-executing it
-	// five times on fresh nodes (determinism gate)
-	keys := make([]string, 0, len(found))
-	for k := range found {
-		keys = append(keys, k)
-	}
-	sort.Strings(keys)
-	for _, k := range keys {
-		r := found[k]
-		c.ViolationChecked(k, r.desc, r.replay, func() bool {
-			in, err := c24NewInst(tier, r.st)
-			if err != nil {
-				return false
-			}
-			defer in.close()
-			in.install(r.cfg)
-			for _, pe := range r.seq[:len(r.seq)-1] {
-				in.apply(r.cfg, pe, false)
-			}
-			fs, _, _ := in.apply(r.cfg, r.seq[len(r.seq)-1], true)
-			for _, f := range fs {
-				if f.key == k {
-					return true
-				}
-			}
-			return false
-		})
-	}
-	c.Set("retired_while_a_later_proposal_owns_a_shared_transaction", sharedLive.Load())
-	c.Set("finalized_listed_before_requeued", orderSensitive.Load())
-	c.Set("complete_aged_proposals_kept_by_expiry", completeKept.Load())
-	c.Set("incomplete_aged_proposals_kept_by_expiry", agedKept.Load())
-	c.Set("resets_with_owned_excluded_and_others_requeued", resetExcluded.Load())
-	c.Set("overflow_requeues", overflowQueued.Load())
-	c.Set("duplicate_guard_defers_with_requeue", dupGuarded.Load())
-	if complete && nVec == int(verifmc.ProductSize(radices)) {
-		c.Require(single.Load() == plannedCases, "planned %d single-event cases, executed %d", plannedCases, single.Load())
-		c.Require(sharedLive.Load() > 0, "no proposal was retired while a later proposal owned one of its transactions")
-		c.Require(orderSensitive.Load() > 0, "no retired proposal listed a finalized transaction before a re-queued one")
-		c.Require(completeKept.Load() > 0, "expiry never met a complete aged proposal")
-		c.Require(resetExcluded.Load() > 0 && overflowQueued.Load() > 0 && dupGuarded.Load() > 0, "reset / overflow / duplicate-guard paths were not exercised: %d %d %d", resetExcluded.Load(), overflowQueued.Load(), dupGuarded.Load())
-		c.Require(c.OutcomeCount("expire:retired=1:queued=2") > 0 && c.OutcomeCount("expire:retired=0:queued=0") > 0, "expiry outcomes are vacuous")
-	}
 }
